@@ -268,6 +268,12 @@ class UnitInterp:
                     if p in ("*", "**", "*extra"):
                         continue
                     args[p] = self.ev(fn, a, st, depth)
+                extra = b.get("*extra") or []
+                if h.vararg and len(extra) == 1 and "*" not in b:
+                    # f(*items) called with exactly one surplus positional actual: items is the one-element tuple
+                    # of that actual (with several actuals a loop over items that returns early is not decided
+                    # here - the parameter stays opaque)
+                    args[h.vararg] = Tup([self.ev(fn, extra[0], st, depth)])
                 outs = self.run(h, args, depth + 1)
                 res = []
                 for o in outs:
